@@ -91,3 +91,11 @@ EDITS += [
      "new": "    for i, (jump, raining) in enumerate(zip(is_jump[1:], is_raining[1:])):\n        if raining:\n            in_mystery = False\n        elif jump:\n"
             "            in_mystery = True\n        mystery_jump_mask[i] = in_mystery\n"},
 ]
+
+# round 7: flags on every path (C04.O4)
+EDITS += [
+    {'id': 'no-flags-without-interstorm', 'expect': 'fire', 'rule': 'C04.O4', 'file': 'spowtd/classify.py',
+     'old': '    del is_raining\n', 'new': '    del is_raining\n    if not interval_mask.any():\n        return\n'},
+    {'id': 'no-flags-for-empty-record', 'expect': 'no-alarm', 'file': 'spowtd/classify.py',
+     'old': '    del is_raining\n', 'new': '    del is_raining\n    if len(interval_mask) == 0:\n        return\n'},
+]
